@@ -147,15 +147,18 @@ theorem hash_covers_all_tx :
     (∀ f ∈ fieldsOfTxBody, covers txHashSpec f = true) ∧
     (∀ f ∈ names txHashSpec, f ∈ fieldsOfTxBody) ∧ (names txHashSpec).Nodup := by decide
 
-/-- Header signing digest = header hash input with exactly `Sign` removed (same order, same encodings). -/
+/-- Header signing digest reads exactly the fields of the header hash input other than `Sign`, each with
+the same encoding (stated order-independently: a reordering of either writer keeps this true). -/
 theorem sign_omits_only_block :
-    blockSignSpec = blockHashSpec.filter (fun fk => fk.1 != "Sign") ∧
+    (blockSignSpec.all (fun fk => blockHashSpec.contains fk && fk.1 != "Sign") &&
+     (blockHashSpec.filter (fun fk => fk.1 != "Sign")).all (blockSignSpec.contains ·)) = true ∧
     covers blockHashSpec "Sign" = true ∧ covers blockSignSpec "Sign" = false ∧
     (∀ f ∈ fieldsOfBlockHeader, f ≠ "Sign" → covers blockSignSpec f = true) := by decide
 
-/-- Tx signing digest = tx hash input with exactly `Sign` removed. -/
+/-- Tx signing digest reads exactly the fields of the tx hash input other than `Sign`, same encodings. -/
 theorem sign_omits_only_tx :
-    txSignSpec = txHashSpec.filter (fun fk => fk.1 != "Sign") ∧
+    (txSignSpec.all (fun fk => txHashSpec.contains fk && fk.1 != "Sign") &&
+     (txHashSpec.filter (fun fk => fk.1 != "Sign")).all (txSignSpec.contains ·)) = true ∧
     covers txHashSpec "Sign" = true ∧ covers txSignSpec "Sign" = false ∧
     (∀ f ∈ fieldsOfTxBody, f ≠ "Sign" → covers txSignSpec f = true) := by decide
 
@@ -226,9 +229,6 @@ example : encode blockHashSpec r0 ≠ encode blockHashSpec (r0.setRaw "Sign" [9]
 example : encode blockSignSpec r0 = encode blockSignSpec (r0.setRaw "Sign" [9]) := by decide
 example : encode txHashSpec r0 ≠ encode txHashSpec (r0.setRaw "Sign" [9]) := by decide
 example : Function.Injective (fun b : Bytes => b) := fun _ _ h => h
--- why whole-record injectivity is NOT claimed: one byte moved from Account to Recipient
-example : encode txHashSpec ((r0.setRaw "Account" [1, 2]).setRaw "Recipient" [3]) =
-          encode txHashSpec ((r0.setRaw "Account" [1]).setRaw "Recipient" [2, 3]) := by decide
 end examples
 
 /-! ## Part 2 — Merkle roots (internal/merkle/merkle.go)
